@@ -134,6 +134,27 @@ def r3_handlers(ck, cx):
     ck.floor('R3', n, 20, 'processIncomingPacket call paths')
 
 
+def r7_context_truthiness(ck, cx):
+    """the servers choose their default context with `context or ModbusServerContext()`: that is only sound while every
+    ModbusServerContext is truthy, i.e. the class defines neither __len__ nor __bool__ (an empty multi-unit context that is
+    populated after the server was built would silently be replaced)"""
+    ck.rule('R7', 'a context handed to a server is the context it serves: no truthiness test can replace an (empty) ModbusServerContext by a default one')
+    c = cx.idx.cls('pymodbus.datastore.context.ModbusServerContext')
+    falsy = [m for m in ('__len__', '__bool__', '__nonzero__') if cx.idx.find_method(c, m) is not None]
+    n = 0
+    for mn in ('pymodbus.server.sync', 'pymodbus.server.async_io', 'pymodbus.server.asynchronous'):
+        m = cx.idx.mod(mn)
+        for fn in list(m.funcs.values()) + [x for k in m.classes.values() for x in k.methods.values()]:
+            for nd in ast.walk(fn.node):
+                if isinstance(nd, ast.BoolOp) and isinstance(nd.op, ast.Or) and any(isinstance(v, ast.Call) and U(v.func) == 'ModbusServerContext' for v in nd.values[1:]):
+                    n += 1
+                    ck.ob('R7', fn.qn, 'default context chosen by truthiness only while every context is truthy', not falsy,
+                          detail='context-truthiness %s' % falsy, loc=cx.floc(fn, nd),
+                          message='%s picks its context with `%s` but ModbusServerContext defines %s: an empty multi-unit context is replaced by a private '
+                                  'default context and the units registered later are never served' % (fn.qn, U(nd), falsy))
+    ck.floor('R7', n, 3, 'default-context selections in the server modules')
+
+
 def run(ck, tier):
     cx = Ctx()
     ck.guard(r1_unit_filter, ck, cx)
@@ -148,5 +169,6 @@ def run(ck, tier):
         ck.finding('R4', f.construct, f.detail, f.loc, f.message)
     from .c18 import r6_table_isolation
     ck.guard(r6_table_isolation, ck, cx, 'R6')
+    ck.guard(r7_context_truthiness, ck, cx)
     ck.assume('non-interference between units as a run-time fact follows from R2 + C05 R2 and is not decided itself')
     return cx.idx
